@@ -31,42 +31,61 @@
 #endif
 #define R (1ULL << CRB)
 #define CM (R - 1)
-#define NBLK (1ULL << 30)	/* blocks of the filesystem */
+#ifndef LBITS
+#define LBITS 6			/* BOUND: bits of the symbolic part of logical positions / gaps */
+#endif
+#ifndef PBITS
+#define PBITS 9		/* BOUND: bits of symbolic physical block numbers; the filesystem has 2^(PBITS+1) blocks */
+#endif
+#define NBLK (1ULL << (PBITS + 1))	/* blocks of the filesystem */
 #define FIRSTDB 1ULL
 #ifndef NLOOP
-#define NLOOP 3			/* BOUND: successful/attempted non-fixed allocations per call of the entry point */
+#define NLOOP 2			/* BOUND: successful/attempted non-fixed allocations per call of the entry point */
 #endif
-#ifndef RLMAX
-#define RLMAX 40000ULL
+#ifndef RLBITS
+#define RLBITS 4		/* BOUND: the requested range has 1 .. 2^RLBITS blocks */
 #endif
+#ifdef WITH_BIG
+#define WB 1
+#else
+#define WB 0
+#endif
+#ifndef VW
+#define VW (WB ? 18 : LBITS + 4)	/* bits of every block number inside the window */
+#endif
+#define VM ((1ULL << VW) - 1)
+#define LM ((1ULL << LBITS) - 1)
+#define PM ((1ULL << PBITS) - 1)
 #ifndef NPRE
 #define NPRE 4			/* extents of the file before the call (each present or absent) */
 #endif
 #ifndef NINS
 #define NINS (NLOOP + 2)
 #endif
-#define NE (NPRE + NINS)
+#define NE (6 + NLOOP)
 #define NZ 8
 #define NCL 6
 #define NFX 6
 #define LMAX (1ULL << 32)
 
 struct vf_in {
-	unsigned long long l[NPRE], p[NPRE];
-	__u32 len[NPRE];
-	unsigned char un[NPRE], valid[NPRE];
-	unsigned long long rs, rl, goal;
-	__u32 flags, isize, isize_hi, iblocks;
+	__u32 pos0, gap[NPRE], p[NPRE], len[NPRE];
+	unsigned char un[NPRE], valid[NPRE], big[NPRE];
+	__u32 rs, rl, goal;
+	__u32 flags, isize, iblocks;
 	unsigned char a_ok[NLOOP], f_ok[NFX];
-	unsigned long long a_start[NLOOP], a_len[NLOOP], f_len[NFX];
-	unsigned long long probe_l, probe_p, other;
+	__u32 a_start[NLOOP], a_len[NLOOP], f_len[NFX];
+	__u32 probe_l, probe_l2, probe_p, other;
 };
 VF_DECLARE_INPUT(struct vf_in, IN)
 #include "vf_input.inc"
 
-struct vf_ext { unsigned long long l, p; __u32 len; unsigned char un, valid; };
+struct vf_ext { unsigned long long l, p, len; unsigned char un, valid; };
+/* slots: 0 further-left, 1 left, 2 right, 3 further-right, 4..5 extents inserted before the first general allocation (implied-cluster inserts), 6.. one per general allocation */
 static struct vf_ext vf_e[NE];
-static int vf_n = NPRE, vf_cur = -1, vf_bad, vf_needfix, vf_nmod, vf_overflow;
+static struct vf_ext ref_pre[NPRE];	/* the file before the call, decoded from the input */
+static unsigned long long vf_other;	/* a block owned by somebody else */
+static int vf_cur = -1, vf_bad, vf_needfix, vf_nmod, vf_overflow, vf_wide, vf_nimp, vf_replace_other;
 static unsigned long long vf_zb[NZ], vf_zn[NZ], vf_cb[NCL], vf_cn[NCL];
 static int vf_nz, vf_ncl, vf_nal, vf_nfx, vf_have_ret, vf_claim_bad;
 static unsigned long long vf_ret_s, vf_ret_n;
@@ -74,10 +93,18 @@ static char vf_handle_obj;
 static struct struct_ext2_filsys vf_fs;
 static struct ext2_super_block vf_sb;
 static struct ext2_inode vf_inode;
+static struct ext2fs_extent vf_lx, vf_rx;	/* the caller's *left_ext / *right_ext */
 
 static unsigned long long vf_cdown(unsigned long long b) { return b & ~CM; }
 static unsigned long long vf_cup(unsigned long long b) { return (b + CM) & ~CM; }
 static __u32 vf_maxlen(int un) { return un ? 32767U : 32768U; }
+/* every block number / count that reaches the model must lie in the window of VW bits (a wrapped value is reported); model arithmetic then runs on VW-bit values */
+static unsigned long long vf_w(unsigned long long v)
+{
+	if (v > VM)
+		vf_wide = 1;
+	return v & VM;
+}
 
 /* ---- list model of the extent tree ---- */
 static void vf_fetch(int c, struct vf_ext *o)
@@ -88,14 +115,6 @@ static void vf_fetch(int c, struct vf_ext *o)
 	for (i = 0; i < NE; i++)
 		if (i == c)
 			*o = vf_e[i];
-}
-static int vf_find(unsigned long long b)
-{
-	int i, r = -1;
-	for (i = 0; i < NE; i++)
-		if (vf_e[i].valid && b >= vf_e[i].l && b - vf_e[i].l < vf_e[i].len)
-			r = i;
-	return r;
 }
 static int vf_lower(unsigned long long b)	/* extent with the greatest start <= b */
 {
@@ -108,12 +127,12 @@ static int vf_lower(unsigned long long b)	/* extent with the greatest start <= b
 		}
 	return r;
 }
-static int vf_above(unsigned long long b, int strict_from_zero)	/* extent with the smallest start > b (or >= 0 when strict_from_zero) */
+static int vf_above(unsigned long long b, int all)	/* extent with the smallest start > b (all: the smallest start) */
 {
 	int i, r = -1;
 	unsigned long long bl = 0;
 	for (i = 0; i < NE; i++)
-		if (vf_e[i].valid && (strict_from_zero || vf_e[i].l > b) && (r < 0 || vf_e[i].l < bl)) {
+		if (vf_e[i].valid && (all || vf_e[i].l > b) && (r < 0 || vf_e[i].l < bl)) {
 			r = i;
 			bl = vf_e[i].l;
 		}
@@ -125,33 +144,25 @@ static void vf_deliver(int c, struct ext2fs_extent *ex)
 	vf_fetch(c, &e);
 	ex->e_lblk = e.l;
 	ex->e_pblk = e.p;
-	ex->e_len = e.len;
+	ex->e_len = (__u32) e.len;
 	ex->e_flags = EXT2_EXTENT_FLAGS_LEAF | (e.un ? EXT2_EXTENT_FLAGS_UNINIT : 0);
 }
 
-/* STUB: extent API = flat sorted list (depth-0 tree semantics): goto(b) selects the extent holding b (0), else the next-lowest, else the lowest extent (EXT2_ET_EXTENT_NOT_FOUND), no current node on an empty tree; get(CURRENT / NEXT_LEAF); replace overwrites the current entry; insert places a new entry before/after the current one and makes it current; delete removes the current entry; all succeed (extent.c itself, node splits, I/O errors: outside) */
-errcode_t ext2fs_extent_open2(ext2_filsys fs, ext2_ino_t ino, struct ext2_inode *inode, ext2_extent_handle_t *h)
-{
-	(void) fs; (void) ino; (void) inode;
-	vf_cur = -1;
-	*h = (ext2_extent_handle_t) &vf_handle_obj;
-	return 0;
-}
-void ext2fs_extent_free(ext2_extent_handle_t h) { (void) h; }
+/* STUB: extent API = flat list sorted by logical block (the semantics of a depth-0 tree): goto(b) selects the extent holding b (0), else the next-lowest, else the lowest extent (EXT2_ET_EXTENT_NOT_FOUND), no current node on an empty tree; get(CURRENT / NEXT_LEAF); replace overwrites the current entry; insert places a new entry before/after the current one and makes it current; delete removes the current entry; all succeed (extent.c itself, node splits, I/O errors: outside) */
 errcode_t ext2fs_extent_goto(ext2_extent_handle_t h, blk64_t blk)
 {
+	struct vf_ext e;
 	int c;
 	(void) h;
-	c = vf_find(blk);
-	if (c >= 0) {
-		vf_cur = c;
-		return 0;
-	}
+	blk = vf_w(blk);
 	c = vf_lower(blk);
-	if (c < 0)
-		c = vf_above(0, 1);
+	if (c < 0) {
+		vf_cur = vf_above(0, 1);
+		return EXT2_ET_EXTENT_NOT_FOUND;
+	}
 	vf_cur = c;
-	return EXT2_ET_EXTENT_NOT_FOUND;
+	vf_fetch(c, &e);
+	return blk < e.l + e.len ? 0 : EXT2_ET_EXTENT_NOT_FOUND;
 }
 errcode_t ext2fs_extent_get(ext2_extent_handle_t h, int flags, struct ext2fs_extent *ex)
 {
@@ -176,33 +187,41 @@ errcode_t ext2fs_extent_get(ext2_extent_handle_t h, int flags, struct ext2fs_ext
 	vf_deliver(c, ex);
 	return 0;
 }
-static void vf_store(int c, struct ext2fs_extent *ex)
-{
-	int i;
-	for (i = 0; i < NE; i++)
-		if (i == c) {
-			vf_e[i].l = ex->e_lblk;
-			vf_e[i].p = ex->e_pblk;
-			vf_e[i].len = ex->e_len;
-			vf_e[i].un = (ex->e_flags & EXT2_EXTENT_FLAGS_UNINIT) != 0;
-			vf_e[i].valid = 1;
-		}
-}
 static void vf_check_rec(struct ext2fs_extent *ex)
 {
 	int un = (ex->e_flags & EXT2_EXTENT_FLAGS_UNINIT) != 0;
 	PROP(ex->e_len >= 1 && ex->e_len <= vf_maxlen(un), "every extent record written is non-empty and within the on-disk length limit of its state");
 	PROP(!vf_needfix, "every tree modification is followed by ext2fs_extent_fix_parents before the next one");
 }
+static void vf_set(struct vf_ext *d, struct ext2fs_extent *ex)
+{
+	d->l = vf_w(ex->e_lblk);
+	d->p = vf_w(ex->e_pblk);
+	d->len = vf_w(ex->e_len);
+	d->un = (ex->e_flags & EXT2_EXTENT_FLAGS_UNINIT) != 0;
+	d->valid = 1;
+}
 errcode_t ext2fs_extent_replace(ext2_extent_handle_t h, int flags, struct ext2fs_extent *ex)
 {
+	int i;
 	(void) h;
 	if (flags || vf_cur < 0) {
 		vf_bad = 1;
 		return EXT2_ET_NO_CURRENT_NODE;
 	}
 	vf_check_rec(ex);
-	vf_store(vf_cur, ex);
+	if (ex == &vf_lx) {
+		PROP(vf_cur == 1, "*left_ext is written onto the node of the left extent");
+		vf_set(&vf_e[1], ex);
+	} else if (ex == &vf_rx) {
+		PROP(vf_cur == 2, "*right_ext is written onto the node of the right extent");
+		vf_set(&vf_e[2], ex);
+	} else {
+		vf_replace_other = 1;
+		for (i = 0; i < NE; i++)
+			if (i == vf_cur)
+				vf_set(&vf_e[i], ex);
+	}
 	vf_needfix = 1;
 	vf_nmod++;
 	return 0;
@@ -210,7 +229,8 @@ errcode_t ext2fs_extent_replace(ext2_extent_handle_t h, int flags, struct ext2fs
 errcode_t ext2fs_extent_insert(ext2_extent_handle_t h, int flags, struct ext2fs_extent *ex)
 {
 	struct vf_ext e;
-	int nb;
+	unsigned long long nl = vf_w(ex->e_lblk);
+	int nb, i, slot;
 	(void) h;
 	vf_check_rec(ex);
 	if (vf_cur < 0) {
@@ -219,51 +239,62 @@ errcode_t ext2fs_extent_insert(ext2_extent_handle_t h, int flags, struct ext2fs_
 		vf_fetch(vf_cur, &e);
 		if (flags == EXT2_EXTENT_INSERT_AFTER) {
 			nb = vf_above(e.l, 0);
-			PROP(e.l < ex->e_lblk, "INSERT_AFTER: the new extent starts behind the current one");
+			PROP(e.l < nl, "INSERT_AFTER: the new extent starts behind the current one");
 			if (nb >= 0) {
 				vf_fetch(nb, &e);
-				PROP(e.l > ex->e_lblk, "INSERT_AFTER: the new extent starts before the current one's successor");
+				PROP(e.l > nl, "INSERT_AFTER: the new extent starts before the current one's successor");
 			}
 		} else {
 			PROP(flags == 0, "insert flags are 0 or EXT2_EXTENT_INSERT_AFTER");
-			PROP(e.l > ex->e_lblk, "insert before: the new extent starts before the current one");
+			PROP(e.l > nl, "insert before: the new extent starts before the current one");
 			if (e.l > 0) {
 				nb = vf_lower(e.l - 1);
 				if (nb >= 0) {
 					vf_fetch(nb, &e);
-					PROP(e.l < ex->e_lblk, "insert before: the new extent starts behind the current one's predecessor");
+					PROP(e.l < nl, "insert before: the new extent starts behind the current one's predecessor");
 				}
 			}
 		}
 	}
-	if (vf_n >= NE) {
-		vf_overflow = 1;
-		return 0;
+	if (vf_nal == 0) {
+		/* before the first general allocation: one of two slots */
+		if (vf_nimp >= 2) {
+			vf_overflow = 1;
+			return 0;
+		}
+		slot = 4 + vf_nimp;
+		for (i = 4; i < 6; i++)
+			if (i == slot)
+				vf_set(&vf_e[i], ex);
+		vf_nimp++;
+	} else {
+		slot = 6 + vf_nal - 1;		/* concrete: one slot per general allocation */
+		if (slot >= NE || vf_e[slot].valid) {
+			vf_overflow = 1;
+			return 0;
+		}
+		vf_set(&vf_e[slot], ex);
 	}
-	vf_store(vf_n, ex);
-	vf_cur = vf_n;
-	vf_n++;
+	vf_cur = slot;
 	vf_needfix = 1;
 	vf_nmod++;
 	return 0;
 }
 errcode_t ext2fs_extent_delete(ext2_extent_handle_t h, int flags)
 {
-	struct vf_ext e;
-	int i, c;
+	int c;
 	(void) h;
 	if (flags || vf_cur < 0) {
 		vf_bad = 1;
 		return EXT2_ET_NO_CURRENT_NODE;
 	}
 	PROP(!vf_needfix, "every tree modification is followed by ext2fs_extent_fix_parents before the next one");
-	vf_fetch(vf_cur, &e);
-	c = vf_above(e.l, 0);
-	for (i = 0; i < NE; i++)
-		if (i == vf_cur)
-			vf_e[i].valid = 0;
-	if (c < 0 && e.l > 0)
-		c = vf_lower(e.l - 1);
+	/* the only deletion of the helper: the right extent after it was merged into the left one */
+	PROP(vf_cur == 2, "only the node of the right extent is deleted");
+	vf_e[2].valid = 0;
+	c = vf_above(vf_e[2].l, 0);
+	if (c < 0)
+		c = vf_lower(vf_e[2].l);
 	vf_cur = c;
 	vf_needfix = 1;
 	vf_nmod++;
@@ -279,7 +310,7 @@ static int vf_inuse(unsigned long long s, unsigned long long e)
 	int i, r = 0;
 	if (cs <= FIRSTDB)
 		r = 1;			/* ASSUME: the blocks up to s_first_data_block (superblock) are in use */
-	if (vf_cdown(IN.other) < ce && vf_cdown(IN.other) + R > cs)
+	if (vf_cdown(vf_other) < ce && vf_cdown(vf_other) + R > cs)
 		r = 1;
 	for (i = 0; i < NE; i++)
 		if (vf_e[i].valid && vf_cdown(vf_e[i].p) < ce && vf_cup(vf_e[i].p + vf_e[i].len) > cs)
@@ -299,6 +330,14 @@ errcode_t ext2fs_new_range(ext2_filsys fs, int flags, blk64_t goal, blk64_t len,
 		return EXT2_ET_INVALID_ARGUMENT;
 	if (!goal || goal >= NBLK)
 		goal = FIRSTDB;
+	goal &= VM;
+	if (len > VM) {
+		/* a request longer than the filesystem: cannot be met in full, otherwise the same as the largest request */
+		if (flags & EXT2_NEWRANGE_MIN_LENGTH)
+			return EXT2_ET_BLOCK_ALLOC_FAIL;
+		len = VM;
+	}
+	len &= VM;
 	if (flags & EXT2_NEWRANGE_FIXED_GOAL) {
 		k = vf_nfx++;
 		if (k >= NFX) {
@@ -308,7 +347,7 @@ errcode_t ext2fs_new_range(ext2_filsys fs, int flags, blk64_t goal, blk64_t len,
 		for (i = 0; i < NFX; i++)
 			if (i == k) {
 				ok = IN.f_ok[i];
-				n = IN.f_len[i];
+				n = 1 + (IN.f_len[i] & ((1ULL << (RLBITS + 1)) - 1));
 			}
 		if (!ok)
 			return EXT2_ET_BLOCK_ALLOC_FAIL;
@@ -326,8 +365,8 @@ errcode_t ext2fs_new_range(ext2_filsys fs, int flags, blk64_t goal, blk64_t len,
 		for (i = 0; i < NLOOP; i++)
 			if (i == k) {
 				ok = IN.a_ok[i];
-				s = IN.a_start[i];
-				n = IN.a_len[i];
+				s = IN.a_start[i] & (2 * PM + 1);
+				n = 1 + (IN.a_len[i] & ((1ULL << (RLBITS + 1)) - 1));
 			}
 		if (!ok)
 			return EXT2_ET_BLOCK_ALLOC_FAIL;
@@ -350,6 +389,8 @@ void ext2fs_block_alloc_stats_range(ext2_filsys fs, blk64_t blk, blk_t num, int 
 {
 	int i;
 	(void) fs;
+	blk = vf_w(blk);
+	num = (blk_t) vf_w(num);
 	if (inuse != 1 || !vf_have_ret || num == 0 || blk + num > NBLK ||
 	    blk < vf_cdown(vf_ret_s) || blk + num > vf_cup(vf_ret_s + vf_ret_n))
 		vf_claim_bad = 1;
@@ -380,8 +421,8 @@ errcode_t ext2fs_zero_blocks2(ext2_filsys fs, blk64_t blk, int num, blk64_t *ret
 	}
 	for (i = 0; i < NZ; i++)
 		if (i == vf_nz) {
-			vf_zb[i] = blk;
-			vf_zn[i] = (unsigned long long) num;
+			vf_zb[i] = vf_w(blk);
+			vf_zn[i] = vf_w((unsigned long long) num);
 		}
 	vf_nz++;
 	return 0;
@@ -389,51 +430,38 @@ errcode_t ext2fs_zero_blocks2(ext2_filsys fs, blk64_t blk, int num, blk64_t *ret
 /* STUB: ext2fs_map_cluster_block (bmap.c, decided in C09/bmap_cluster): the physical block implied for lblk by any OTHER mapped block of its logical cluster, 0 if none or without bigalloc */
 errcode_t ext2fs_map_cluster_block(ext2_filsys fs, ext2_ino_t ino, struct ext2_inode *inode, blk64_t lblk, blk64_t *pblk)
 {
-	unsigned long long base = lblk & ~CM, b, res = 0;
-	int i, j;
+	unsigned long long base, b, e, res = 0;
+	int i;
 	(void) fs; (void) ino; (void) inode;
 	*pblk = 0;
 	if (CRB == 0)
 		return 0;
-	for (j = 0; j < (int) R; j++) {
-		b = base + j;
-		if (b == lblk)
+	lblk = vf_w(lblk);
+	base = lblk & ~CM;
+	for (i = 0; i < NE; i++) {
+		if (res || !vf_e[i].valid)
 			continue;
-		for (i = 0; i < NE; i++)
-			if (!res && vf_e[i].valid && b >= vf_e[i].l && b - vf_e[i].l < vf_e[i].len)
-				res = vf_e[i].p + (b - vf_e[i].l) - j + (lblk - base);
+		/* first block of the extent inside the logical cluster, skipping lblk itself */
+		b = vf_e[i].l > base ? vf_e[i].l : base;
+		if (b == lblk)
+			b++;
+		e = vf_e[i].l + vf_e[i].len;
+		if (b < e && b < base + R)
+			res = vf_e[i].p + (b - vf_e[i].l) - (b - base) + (lblk - base);
 	}
 	*pblk = res;
 	return 0;
 }
-#if MODE == 2
-/* STUB: goal search of extent_fallocate on an empty file: ext2fs_find_first_zero_block_bitmap2 returns the goal itself (only a hint to the allocator stub, which may answer anywhere); ext2fs_find_inode_goal a constant */
-errcode_t ext2fs_find_first_zero_generic_bmap(ext2fs_generic_bitmap b, __u64 start, __u64 end, __u64 *out)
-{
-	(void) b; (void) end;
-	*out = start;
-	return 0;
-}
-blk64_t ext2fs_find_inode_goal(ext2_filsys fs, ext2_ino_t ino, struct ext2_inode *inode, blk64_t lblk)
-{
-	(void) fs; (void) ino; (void) inode; (void) lblk;
-	return 4096;
-}
-errcode_t ext2fs_read_inode(ext2_filsys fs, ext2_ino_t ino, struct ext2_inode *inode) { (void) fs; (void) ino; (void) inode; vf_bad = 1; return 0; }
-errcode_t ext2fs_write_inode(ext2_filsys fs, ext2_ino_t ino, struct ext2_inode *inode) { (void) fs; (void) ino; (void) inode; vf_bad = 1; return 0; }
-errcode_t ext2fs_bmap2(ext2_filsys fs, ext2_ino_t ino, struct ext2_inode *inode, char *bb, int fl, blk64_t b, int *rf, blk64_t *p)
-{ (void) fs; (void) ino; (void) inode; (void) bb; (void) fl; (void) b; (void) rf; (void) p; vf_bad = 1; return EXT2_ET_OP_NOT_SUPPORTED; }
-#endif
-
 /* ---- reference views ---- */
+static int ref_in(unsigned long long x, unsigned long long s, unsigned long long n) { return x >= s && x < s + n; }
 static int ref_pre_l(unsigned long long L, unsigned long long *p, int *un)
 {
 	int i, c = 0;
 	for (i = 0; i < NPRE; i++)
-		if (IN.valid[i] && L >= IN.l[i] && L - IN.l[i] < IN.len[i]) {
+		if (ref_pre[i].valid && ref_in(L, ref_pre[i].l, ref_pre[i].len)) {
 			c++;
-			*p = IN.p[i] + (L - IN.l[i]);
-			*un = IN.un[i];
+			*p = ref_pre[i].p + L - ref_pre[i].l;
+			*un = ref_pre[i].un;
 		}
 	return c;
 }
@@ -441,7 +469,7 @@ static int ref_pre_p(unsigned long long P)
 {
 	int i, c = 0;
 	for (i = 0; i < NPRE; i++)
-		if (IN.valid[i] && P >= IN.p[i] && P - IN.p[i] < IN.len[i])
+		if (ref_pre[i].valid && ref_in(P, ref_pre[i].p, ref_pre[i].len))
 			c++;
 	return c;
 }
@@ -450,7 +478,7 @@ static int ref_pre_pcluster(unsigned long long P)
 {
 	int i, c = 0;
 	for (i = 0; i < NPRE; i++)
-		if (IN.valid[i] && vf_cdown(IN.p[i]) <= P && P < vf_cup(IN.p[i] + IN.len[i]))
+		if (ref_pre[i].valid && vf_cdown(ref_pre[i].p) <= P && P < vf_cup(ref_pre[i].p + ref_pre[i].len))
 			c++;
 	return c;
 }
@@ -458,7 +486,7 @@ static int ref_pre_lcluster(unsigned long long L)
 {
 	int i, c = 0;
 	for (i = 0; i < NPRE; i++)
-		if (IN.valid[i] && vf_cdown(IN.l[i]) <= L && L < vf_cup(IN.l[i] + IN.len[i]))
+		if (ref_pre[i].valid && vf_cdown(ref_pre[i].l) <= L && L < vf_cup(ref_pre[i].l + ref_pre[i].len))
 			c++;
 	return c;
 }
@@ -466,9 +494,9 @@ static int vf_post_l(unsigned long long L, unsigned long long *p, int *un)
 {
 	int i, c = 0;
 	for (i = 0; i < NE; i++)
-		if (vf_e[i].valid && L >= vf_e[i].l && L - vf_e[i].l < vf_e[i].len) {
+		if (vf_e[i].valid && ref_in(L, vf_e[i].l, vf_e[i].len)) {
 			c++;
-			*p = vf_e[i].p + (L - vf_e[i].l);
+			*p = vf_e[i].p + L - vf_e[i].l;
 			*un = vf_e[i].un;
 		}
 	return c;
@@ -477,7 +505,7 @@ static int vf_post_p(unsigned long long P, int *un)
 {
 	int i, c = 0;
 	for (i = 0; i < NE; i++)
-		if (vf_e[i].valid && P >= vf_e[i].p && P - vf_e[i].p < vf_e[i].len) {
+		if (vf_e[i].valid && ref_in(P, vf_e[i].p, vf_e[i].len)) {
 			c++;
 			*un = vf_e[i].un;
 		}
@@ -491,36 +519,39 @@ static int vf_post_pcluster(unsigned long long P)
 			c++;
 	return c;
 }
-/* file invariant over a list of extents: returns 0 if well formed */
+/* one extent on its own: 0 if well formed */
+static int vf_wf1(const struct vf_ext *e)
+{
+	if (e->len < 1 || e->len > vf_maxlen(e->un))
+		return 1;
+	if (e->p <= FIRSTDB || e->p >= NBLK || e->p + e->len > NBLK)
+		return 3;
+	if ((e->p & CM) != (e->l & CM))
+		return 4;
+	return 0;
+}
+/* file invariant over the extents before the call (in logical order by construction): returns 0 if well formed */
 static int vf_wellformed(const struct vf_ext *e, int n)
 {
-	int i, j;
+	int i, j, r;
 	for (i = 0; i < n; i++) {
 		if (!e[i].valid)
 			continue;
-		if (e[i].len < 1 || e[i].len > vf_maxlen(e[i].un))
-			return 1;
-		if (e[i].l >= LMAX || e[i].l + e[i].len > LMAX)
-			return 2;
-		if (e[i].p <= FIRSTDB || e[i].p >= NBLK || e[i].p + e[i].len > NBLK)
-			return 3;
-		if ((e[i].p & CM) != (e[i].l & CM))
-			return 4;
-		for (j = 0; j < n; j++) {
+		r = vf_wf1(&e[i]);
+		if (r)
+			return r;
+		for (j = i + 1; j < n; j++) {
 			unsigned long long ei, pei;
-			if (j == i || !e[j].valid || e[j].l < e[i].l)
+			if (!e[j].valid)
 				continue;
-			/* j starts at or behind i */
 			ei = e[i].l + e[i].len;
 			pei = e[i].p + e[i].len;
 			if (e[j].l < ei)
 				return 5;	/* logical overlap */
-			if (vf_cdown(ei - 1) == vf_cdown(e[j].l)) {
+			if (CRB > 0 && vf_cdown(ei - 1) == vf_cdown(e[j].l)) {
 				/* the two share a logical cluster: same physical cluster */
 				if (vf_cdown(pei - 1) != vf_cdown(e[j].p))
 					return 6;
-				if (CRB == 0)
-					return 7;	/* unreachable: with ratio 1 sharing means overlap */
 			} else if (vf_cdown(e[i].p) < vf_cup(e[j].p + e[j].len) && vf_cdown(e[j].p) < vf_cup(pei))
 				return 8;	/* physical cluster footprints intersect */
 		}
@@ -532,12 +563,9 @@ int main(void)
 {
 	static struct vf_ext pre[NPRE];
 	errcode_t err;
-	unsigned long long L, PB, rs, rl, pp = 0, qp = 0, clsum = 0;
-	int i, flags, pu = 0, qu = 0, pre_c, post_c, prep_c, postp_c, zhit = 0, chit = 0, newly_p, in_range, wf;
-#if MODE == 1
-	struct ext2fs_extent lx, rx;
+	unsigned long long L, L2, PB, rs, rl, pos, goal, pp = 0, qp = 0, qp2 = 0, clsum = 0;
+	int i, flags, pu = 0, qu = 0, qu2 = 0, post2_c, pre_c, post_c, prep_c, postp_c, zhit = 0, chit = 0, newly_p, in_range, wf;
 	static struct ext2fs_extent xz;
-#endif
 
 	VF_INPUT(IN);
 	vf_sb.s_blocks_count = (__u32) NBLK;
@@ -555,90 +583,130 @@ int main(void)
 	vf_fs.flags = EXT2_FLAG_RW;
 	vf_inode.i_mode = 0100644;
 	vf_inode.i_flags = EXT4_EXTENTS_FL;
-	/* BOUND: i_blocks before the call below 2^24 sectors (no EOVERFLOW of the 32-bit counter); i_size any 48-bit value */
-	ASSUME(IN.iblocks < (1u << 24) && IN.isize_hi < (1u << 16));
-	vf_inode.i_blocks = IN.iblocks;
-	vf_inode.i_size = IN.isize;
-	vf_inode.i_size_high = IN.isize_hi;
+	/* BOUND: i_blocks before the call below 2^24 sectors (no EOVERFLOW of the 32-bit counter); i_size below 2^(LBITS+12) (EOF block anywhere in or behind the window) */
+	vf_inode.i_blocks = IN.iblocks & 0xffffff;
+	vf_inode.i_size = IN.isize & ((1u << (LBITS + 12)) - 1);
+	vf_inode.i_size_high = 0;
 
 	/* ASSUME: flags within EXT2_FALLOCATE_ALL_FLAGS, not FORCE_INIT together with FORCE_UNINIT (ext2fs_fallocate rejects the rest) */
-	flags = (int) IN.flags;
-	ASSUME(!(flags & ~EXT2_FALLOCATE_ALL_FLAGS));
-	ASSUME(!((flags & EXT2_FALLOCATE_FORCE_INIT) && (flags & EXT2_FALLOCATE_FORCE_UNINIT)));
-	/* BOUND: request of 1..RLMAX blocks, logical blocks below 2^32, filesystem of 2^30 blocks of 1 KiB, s_first_data_block 1 */
-	rs = IN.rs;
-	rl = IN.rl;
-	ASSUME(rl >= 1 && rl <= RLMAX && rs < LMAX && rs + rl <= LMAX);
-	ASSUME(IN.goal < NBLK);
-	ASSUME(IN.other < NBLK);
-
-	/* ASSUME: the file's extents before the call are well formed: non-empty, within the length limit of their state, in logical order without overlap, physically disjoint and inside the filesystem; bigalloc: p % R == l % R, extents sharing a logical cluster share the physical cluster, others have disjoint cluster footprints; the foreign block `other` is in none of the file's clusters */
-	for (i = 0; i < NPRE; i++) {
-		ASSUME(IN.valid[i] <= 1 && IN.un[i] <= 1);
-		pre[i].l = IN.l[i];
-		pre[i].p = IN.p[i];
-		pre[i].len = IN.len[i];
-		pre[i].un = IN.un[i];
-		pre[i].valid = IN.valid[i];
-		/* slots are in logical order */
-		if (i > 0 && IN.valid[i] && IN.valid[i - 1])
-			ASSUME(IN.l[i - 1] < IN.l[i]);
-	}
-#if NPRE > 2
-	for (i = 2; i < NPRE; i++)
-		if (IN.valid[i] && IN.valid[i - 2])
-			ASSUME(IN.l[i - 2] < IN.l[i]);
-#endif
-#if NPRE > 3
-	if (IN.valid[0] && IN.valid[3])
-		ASSUME(IN.l[0] < IN.l[3]);
-#endif
-	ASSUME(vf_wellformed(pre, NPRE) == 0);
-	ASSUME(ref_pre_pcluster(IN.other) == 0);
-	for (i = 0; i < NPRE; i++)
-		vf_e[i] = pre[i];
-
-#if MODE == 1
-	/* ASSUME: the contract extent_fallocate() establishes for ext_falloc_helper(): slots are FL, left, right, FR; left (if given) ends exactly at range_start, right (if given) starts exactly at range_start + range_len; a further-left extent ends before range_start - 1 when no left is given, a further-right extent starts behind range_start + range_len when no right is given: the range itself is a hole */
-#ifdef HAVE_LEFT
-	ASSUME(IN.valid[1] == 1 && IN.l[1] + IN.len[1] == rs);
+#ifdef FLAGS
+	flags = FLAGS;		/* compile-time: one query per flag combination */
 #else
-	ASSUME(IN.valid[1] == 0);
-	if (IN.valid[0])
-		ASSUME(IN.l[0] + IN.len[0] < rs);
+	flags = (int) (IN.flags & EXT2_FALLOCATE_ALL_FLAGS);
+#endif
+	ASSUME(!((flags & EXT2_FALLOCATE_FORCE_INIT) && (flags & EXT2_FALLOCATE_FORCE_UNINIT)));
+	goal = IN.goal & (2 * PM + 1);
+	vf_other = IN.other & (2 * PM + 1);
+
+	/*
+	 * The file before the call, laid out left to right: slot i starts gap[i] blocks behind the end of slot i-1
+	 * (an absent slot takes no room).  BOUND: start of the window and gaps below 2^LBITS, physical blocks below
+	 * 2^PBITS, lengths 1..16 or (big) within 15 of the on-disk limit of the state.
+	 * MODE 1: slots are further-left, left, right, further-right and the requested range sits between left and
+	 * right: this is the contract extent_fallocate() establishes for ext_falloc_helper(): left (if given) ends
+	 * exactly at range_start, right (if given) starts exactly at range_start + range_len, extents that are not
+	 * passed are not adjacent to the range, and the range itself is a hole.
+	 */
+	pos = IN.pos0 & LM;
+	rl = 1 + (IN.rl & ((1ULL << RLBITS) - 1));
+	for (i = 0; i < NPRE; i++) {
+		ASSUME(IN.valid[i] <= 1 && IN.un[i] <= 1 && IN.big[i] <= 1);
+		pre[i].valid = IN.valid[i];
+		pre[i].un = IN.un[i];
+#if MODE == 1
+#ifndef HAVE_FAR
+		if (i == 0 || i == 3)
+			pre[i].valid = 0;	/* config without further-left / further-right extents */
+#endif
+#ifdef UNL
+		if (i == 1)
+			pre[i].un = UNL;	/* compile-time state of the left extent */
+#endif
+#ifdef UNR
+		if (i == 2)
+			pre[i].un = UNR;	/* compile-time state of the right extent */
+#endif
+#ifdef HAVE_LEFT
+		if (i == 1)
+			pre[i].valid = 1;
+#else
+		if (i == 1)
+			pre[i].valid = 0;
 #endif
 #ifdef HAVE_RIGHT
-	ASSUME(IN.valid[2] == 1 && IN.l[2] == rs + rl);
+		if (i == 2)
+			pre[i].valid = 1;
 #else
-	ASSUME(IN.valid[2] == 0);
-	if (IN.valid[3])
-		ASSUME(IN.l[3] > rs + rl);
+		if (i == 2)
+			pre[i].valid = 0;
 #endif
-	if (IN.valid[0])
-		ASSUME(IN.l[0] + IN.len[0] <= rs);
-	if (IN.valid[3])
-		ASSUME(IN.l[3] >= rs + rl);
-	lx = xz;
-	rx = xz;
-	vf_cur = 0;
-	vf_deliver(1, &lx);
-	vf_deliver(2, &rx);
+#endif
+#ifdef WITH_BIG
+		pre[i].len = IN.big[i] ? vf_maxlen(pre[i].un) - (IN.len[i] & 15) : 1 + (IN.len[i] & 15);
+#else
+		pre[i].len = 1 + (IN.len[i] & 15);
+#endif
+		pre[i].p = IN.p[i] & PM;
+	}
+#if MODE == 1
+	if (pre[0].valid) {
+		pre[0].l = pos;
+		pos += pre[0].len;
+	}
+	pos += IN.gap[1] & LM;
+#ifdef HAVE_LEFT
+	pre[1].l = pos;
+	pos += pre[1].len;
+#else
+	if (pre[0].valid)
+		pos += 1;		/* an extent that is not passed as left_ext is not adjacent to the range */
+#endif
+	rs = pos;
+	pos += rl;
+#ifdef HAVE_RIGHT
+	pre[2].l = pos;
+	pos += pre[2].len;
+#else
+	pos += 1;			/* an extent that is not passed as right_ext is not adjacent to the range */
+#endif
+	pos += IN.gap[3] & LM;
+	if (pre[3].valid)
+		pre[3].l = pos;
+#else
+	for (i = 0; i < NPRE; i++)
+		if (pre[i].valid) {
+			pos += IN.gap[i] & LM;
+			pre[i].l = pos;
+			pos += pre[i].len;
+		}
+	rs = IN.rs & ((1ULL << (LBITS + 2)) - 1);
+#endif
+	ASSUME(rs + rl <= LMAX);
+	/* ASSUME: the file's extents before the call are well formed: non-empty, within the length limit of their state, in logical order without overlap, physically disjoint and inside the filesystem; bigalloc: p % R == l % R, extents sharing a logical cluster share the physical cluster, others have disjoint cluster footprints; the foreign block `other` is in none of the file's clusters */
+	ASSUME(vf_wellformed(pre, NPRE) == 0);
+	for (i = 0; i < NPRE; i++) {
+		ref_pre[i] = pre[i];
+		vf_e[i] = pre[i];
+	}
+	ASSUME(ref_pre_pcluster(vf_other) == 0);
+
+#if MODE == 1
+	vf_deliver(1, &vf_lx);
+	vf_deliver(2, &vf_rx);
 	vf_cur = -1;
 
 	err = ext_falloc_helper(&vf_fs, flags, 12, &vf_inode, (ext2_extent_handle_t) &vf_handle_obj,
 #ifdef HAVE_LEFT
-				&lx,
+				&vf_lx,
 #else
 				NULL,
 #endif
 #ifdef HAVE_RIGHT
-				&rx,
+				&vf_rx,
 #else
 				NULL,
 #endif
-				rs, rl, IN.goal);
-#else
-	err = ext2fs_fallocate(&vf_fs, flags, 12, &vf_inode, IN.goal, rs, rl);
+				rs, rl, goal);
 #endif
 
 	PROP(!vf_overflow, "harness: record capacities suffice");
@@ -646,21 +714,32 @@ int main(void)
 	PROP(!vf_needfix, "the last tree modification is followed by ext2fs_extent_fix_parents");
 	PROP(!vf_claim_bad, "every claimed range is +1, inside the filesystem and inside the cluster footprint of the range the allocator just returned");
 
-	/* (5) written extents */
-	wf = vf_wellformed(vf_e, NE);
-	PROP(wf != 1, "no extent is empty or longer than the on-disk limit of its state");
-	PROP(wf != 2 && wf != 3, "extents stay inside the logical and physical address space");
-	PROP(wf != 5, "extents are in logical order without overlap");
-	PROP(wf != 4 && wf != 6, "bigalloc: p % R == l % R and one physical cluster per logical cluster");
-	PROP(wf != 8 && wf != 7, "extents of different logical clusters do not share physical clusters (no physical overlap)");
+	PROP(!vf_wide, "every block number and count the helper passes on lies inside the window (no wrapped arithmetic reaches the tree, the allocator or the zeroing)");
+
+	/* (5) written extents, each on its own; order / overlap / cluster sharing through the probes below */
+	for (i = 0; i < NE; i++)
+		if (vf_e[i].valid) {
+			wf = vf_wf1(&vf_e[i]);
+			PROP(wf != 1, "no extent is empty or longer than the on-disk limit of its state");
+			PROP(wf != 3, "extents stay inside the filesystem");
+			PROP(wf != 4, "bigalloc: p % R == l % R for every extent");
+		}
 
 	/* (1) (2) per logical block */
-	L = IN.probe_l;
-	ASSUME(L < LMAX);
+	/* BOUND: probe blocks range over the window */
+	L = IN.probe_l & VM;
+	L2 = IN.probe_l2 & VM;
 	pre_c = ref_pre_l(L, &pp, &pu);
 	post_c = vf_post_l(L, &qp, &qu);
-	in_range = (L >= rs && L - rs < rl);
-	PROP(post_c <= 1, "a logical block is mapped by at most one extent");
+	post2_c = vf_post_l(L2, &qp2, &qu2);
+	in_range = ref_in(L, rs, rl);
+	PROP(post_c <= 1, "a logical block is mapped by at most one extent (no logical overlap)");
+	if (post_c == 1 && post2_c == 1 && L != L2) {
+		if (vf_cdown(L) == vf_cdown(L2))
+			PROP(vf_cdown(qp) == vf_cdown(qp2), "bigalloc: all blocks of one logical cluster lie in one physical cluster");
+		else
+			PROP(vf_cdown(qp) != vf_cdown(qp2), "blocks of different logical clusters lie in different physical clusters (no physical block shared)");
+	}
 	if (pre_c) {
 		PROP(post_c == 1 && qp == pp, "a block mapped before is mapped to the same physical block afterwards");
 		PROP(post_c != 1 || qu == pu, "a block mapped before keeps its initialised / uninitialised state");
@@ -675,14 +754,13 @@ int main(void)
 		PROP(post_c == 1, "on success every block of the requested range is mapped");
 
 	/* (3) (4) per physical block */
-	PB = IN.probe_p;
-	ASSUME(PB < NBLK);
+	PB = IN.probe_p & VM;
 	prep_c = ref_pre_p(PB);
 	postp_c = vf_post_p(PB, &qu);
 	PROP(postp_c <= 1, "no physical block is mapped twice");
 	newly_p = postp_c && !prep_c;
 	for (i = 0; i < NZ; i++)
-		if (i < vf_nz && PB >= vf_zb[i] && PB - vf_zb[i] < vf_zn[i])
+		if (i < vf_nz && ref_in(PB, vf_zb[i], vf_zn[i]))
 			zhit++;
 	for (i = 0; i < NCL; i++)
 		if (i < vf_ncl) {
@@ -696,30 +774,31 @@ int main(void)
 	PROP(chit <= 1, "no cluster is claimed twice");
 	PROP(!(chit && ref_pre_pcluster(PB)), "no cluster the file already owned is claimed again");
 	if (newly_p) {
-		PROP(vf_cdown(PB) != vf_cdown(IN.other), "a newly mapped block is not in a foreign block's cluster");
+		PROP(vf_cdown(PB) != vf_cdown(vf_other), "a newly mapped block is not in a foreign block's cluster");
 		PROP(chit == 1 || (CRB > 0 && ref_pre_pcluster(PB)), "a newly mapped block was claimed from the allocator (or lies in a cluster the file already owned)");
 	}
 	if (err == 0 && chit)
 		PROP(vf_post_pcluster(PB), "on success every claimed cluster holds a mapped block (no leak)");
-	PROP(vf_inode.i_blocks == IN.iblocks + (__u32) (clsum * R * 2), "i_blocks grows by exactly the claimed clusters");
-#if MODE == 1
+	PROP(vf_inode.i_blocks == (IN.iblocks & 0xffffff) + (__u32) (clsum * R * 2), "i_blocks grows by exactly the claimed clusters");
+	PROP(!vf_replace_other, "ext2fs_extent_replace is only called with *left_ext or *right_ext");
 	if (err == 0) {
+		struct ext2fs_extent t;
 #ifdef HAVE_LEFT
 		/* the caller continues from these structures */
-		i = vf_find(rs - 1);
-		vf_cur = i;
-		{ struct ext2fs_extent t = xz; if (i >= 0) vf_deliver(i, &t);
-		  PROP(i >= 0 && t.e_lblk == lx.e_lblk && t.e_pblk == lx.e_pblk && t.e_len == lx.e_len &&
-		       ((t.e_flags ^ lx.e_flags) & EXT2_EXTENT_FLAGS_UNINIT) == 0, "*left_ext describes the extent holding the block left of the range"); }
+		t = xz;
+		i = vf_lower(rs - 1);
+		vf_deliver(i, &t);
+		PROP(i >= 0 && t.e_lblk == vf_lx.e_lblk && t.e_pblk == vf_lx.e_pblk && t.e_len == vf_lx.e_len &&
+		     ((t.e_flags ^ vf_lx.e_flags) & EXT2_EXTENT_FLAGS_UNINIT) == 0, "*left_ext describes the extent holding the block left of the range");
 #endif
 #ifdef HAVE_RIGHT
-		i = vf_find(rs + rl);
-		{ struct ext2fs_extent t = xz; if (i >= 0) vf_deliver(i, &t);
-		  PROP(i >= 0 && t.e_lblk == rx.e_lblk && t.e_pblk == rx.e_pblk && t.e_len == rx.e_len &&
-		       ((t.e_flags ^ rx.e_flags) & EXT2_EXTENT_FLAGS_UNINIT) == 0, "*right_ext describes the extent holding the block right of the range"); }
+		t = xz;
+		i = vf_lower(rs + rl);
+		vf_deliver(i, &t);
+		PROP(i >= 0 && t.e_lblk == vf_rx.e_lblk && t.e_pblk == vf_rx.e_pblk && t.e_len == vf_rx.e_len &&
+		     ((t.e_flags ^ vf_rx.e_flags) & EXT2_EXTENT_FLAGS_UNINIT) == 0, "*right_ext describes the extent holding the block right of the range");
 #endif
 	}
-#endif
 	VF_END();
 	return 0;
 }
